@@ -145,6 +145,53 @@ Theorem C04_upload_huge_offset : forall src fsz o grant cut pc, (2 ^ 63 <= o)%N 
   u_wire (upload_session src fsz (Some o) grant cut pc) = [].
 Proof. exact upload_huge_offset. Qed.
 
+(* The uploader reads the offset that was sent, whatever the TCP segmentation of the 8 bytes
+   (receive_transfer_offset uses readexactly; width and exactness are regenerated from the source);
+   fewer than 8 bytes before the end: no offset (the upload goes back to QUEUED). *)
+Theorem C04_offset_read_segmentation_irrelevant : forall o segs rest, (o < 2 ^ 64)%N ->
+  concat segs = le 8 o ++ rest -> read_offset segs = Some o.
+Proof. exact read_offset_segments. Qed.
+
+Theorem C04_offset_read_short : forall segs, (length (concat segs) < 8)%nat -> read_offset segs = None.
+Proof. exact read_offset_short. Qed.
+
+(* COMPLETE upload, stated on the wire: for any segmentation of the offset bytes *)
+Theorem C04_complete_sound_upload_wire : forall src fsz o segs rest grant cut pc, (o < 2 ^ 64)%N ->
+  concat segs = le 8 o ++ rest ->
+  u_state (upload_session_wire src fsz segs grant cut pc) = UComplete ->
+  pc = true /\ u_wire (upload_session_wire src fsz segs grant cut pc) = skipn (N.to_nat o) src.
+Proof. exact complete_sound_upload_wire. Qed.
+
+(* What the uploader does NOT have: a timeout while it waits for the peer to close
+   (receive_until_eof without timeout: eof_wait_bounded = false, regenerated).  A peer that received
+   everything and then neither closes nor breaks the connection keeps the upload UPLOADING for ever.
+   This is a FAULT of the peer in the sense of the property ("once faults stop ..."): the real
+   downloader always closes (dl_done_closes / every error path disconnects), so the pair is not
+   affected (C04_eventual_upload uses peer_closes = true); it is stated here so that it is visible. *)
+Theorem C04_upload_stuck_without_close : forall src fsz o grant, (o < 2 ^ 63)%N ->
+  u_state (upload_session src fsz (Some o) grant None false) = UStuck.
+Proof. exact upload_stuck_without_close. Qed.
+
+(* The pair over several attempts with the managers' retry policy (pair_run: INCOMPLETE / re-QUEUED
+   downloads are retried, FAILED-with-reason ones are not).  Safety for every fault list: *)
+Theorem C04_pair_run_safe : forall fs src local,
+  prefix local src ->
+  let '(l, s, _) := pair_run src local fs in prefix l src /\ (s = DComplete -> l = src).
+Proof. exact pair_run_safe. Qed.
+
+(* "once faults stop, the pair finishes without user action": holds for resets and read timeouts, in
+   any number, at any byte, with any segmentation ... *)
+Theorem C04_pair_eventual_partial : forall fs src local,
+  prefix local src -> forallb (fun x => not_eof (fst x)) fs = true ->
+  exists n, pair_run src local fs = (src, DComplete, n).
+Proof. exact pair_eventual. Qed.
+
+(* ... and is false after a clean close (EOF) before the last byte: the download is FAILED/Cancelled,
+   nobody retries (known finding C04-N1; the reason is pinned by tests/e2e/test_e2e_transfer.py). *)
+Theorem C04_pair_eventual_refuted : exists src local fs,
+  prefix local src /\ pair_run src local fs = ([1]%N, DFailedCancelled, 1%nat) /\ src <> [1]%N.
+Proof. exact pair_eventual_refuted. Qed.
+
 (* non-vacuity: concrete attempts meeting the hypotheses, with non-trivial outcomes *)
 Example C04_prefix_inv_nonvacuous :
   retry [1;2;3;4;5;6;7]%N [1;2]%N [(CutReset 2, [1]%N); (CutEof 1, []); (NoFault, [2;1]%N)] = [1;2;3;4;5;6;7]%N
@@ -192,6 +239,17 @@ Example C04_eventual_nonvacuous :
   pair_session [1;2;3]%N [1]%N (CutReset 1) [] 8192 =
     (mkD [1;2]%N DIncomplete (Some 1) [1;0;0;0;0;0;0;0]%N 2 [1], mkU [2;3]%N UComplete 3 false).
 Proof. repeat split; reflexivity. Qed.
+
+Example C04_offset_read_nonvacuous :
+  read_offset (split_at 1 (le 8 258)) = Some 258%N /\ read_offset [[2]%N; []; [1;0;0]%N; [0;0;0;0;9;9]%N] = Some 258%N /\
+  read_offset [[2;1;0]%N] = None /\
+  u_wire (upload_session_wire [1;2;3;4;5]%N 5 (split_at 3 (le 8 2)) 8192 None true) = [3;4;5]%N.
+Proof. repeat split; reflexivity. Qed.
+
+Example C04_pair_run_nonvacuous :
+  pair_run [1;2;3;4]%N [] [(CutReset 1, []); (CutReset 0, []); (CutReset 2, [1]%N)] = ([1;2;3;4]%N, DComplete, 4%nat) /\
+  pair_run [1;2;3;4]%N [1]%N [(CutReset 1, []); (CutEof 1, []); (NoFault, [])] = ([1;2;3]%N, DFailedCancelled, 2%nat).
+Proof. split; reflexivity. Qed.
 
 Example C04_terminal_nonvacuous :
   d_state (download_session None [1]%N true [2]%N TEof []) = DRefused /\
